@@ -59,6 +59,10 @@ type Program struct {
 	noRet     map[*ssa.Function]bool
 	noRetDone bool
 	views     map[*ssa.Function]*View
+	alwaysErr map[*ssa.Function]int
+	roMemo    map[*ssa.Function]int
+	roWhy     map[*ssa.Function]string
+	roBusy    map[*ssa.Function]bool
 }
 
 // required first-party packages; losing one of them is an unresolved anchor.
